@@ -383,5 +383,7 @@ func init() {
 		Assumptions: []string{"raw snappy carries no checksum: a flipped literal byte is undetectable by any conforming reader, so the oracle for corruption is differential", "chunk = 218421 bytes (Hadoop SnappyCodec buffer)"},
 		Quick:       90 * time.Second, Thorough: 10 * time.Minute,
 		Direct: c15Direct,
+		// compression happens in the sender's goroutine: the same free-running body as C05's
+		Race: func() []RaceBody { return c05Race()[1:] },
 	})
 }
